@@ -17,7 +17,7 @@ const (
 type storedMessages struct {
 	logger                Logger
 	lock                  sync.RWMutex
-	lastUsed              time.Time
+	lastUsed              uint64
 	messages              []*IncMessage
 	messageCountPerSender map[uint16]int
 }
@@ -26,7 +26,7 @@ type MessageHandler interface {
 	HandleMessage(msg *IncMessage)
 }
 
-func (sm *storedMessages) add(msg *IncMessage) {
+func (sm *storedMessages) add(msg *IncMessage, epoch uint64) {
 	sm.lock.Lock()
 	defer sm.lock.Unlock()
 
@@ -39,11 +39,17 @@ func (sm *storedMessages) add(msg *IncMessage) {
 	sm.messageCountPerSender[msg.Source]++
 
 	sm.messages = append(sm.messages, msg)
-	now := time.Now()
 
-	if now.After(sm.lastUsed) {
-		sm.lastUsed = now
+	if epoch > sm.lastUsed {
+		sm.lastUsed = epoch
 	}
+}
+
+func (sm *storedMessages) lastUsedEpoch() uint64 {
+	sm.lock.RLock()
+	defer sm.lock.RUnlock()
+
+	return sm.lastUsed
 }
 
 func (sm *storedMessages) senders() []uint16 {
@@ -165,7 +171,7 @@ func (b *Box) storeUnlessStarted(msg *IncMessage) bool {
 		b.pendingMessages[string(msg.Topic)] = messages
 	}
 
-	messages.add(msg)
+	messages.add(msg, atomic.LoadUint64(&b.currentGCEpochNum))
 
 	return true
 }
@@ -236,7 +242,7 @@ func (b *Box) mark(now uint64, epochsAfterWhichWeGC time.Duration) []string {
 	defer b.lock.RUnlock()
 
 	for topic, messages := range b.pendingMessages {
-		if float64(messages.lastUsed.Unix())+b.GCExpire.Seconds() < float64(now) {
+		if time.Duration(now-messages.lastUsedEpoch()) > epochsAfterWhichWeGC {
 			topics2Delete = append(topics2Delete, topic)
 		}
 	}
